@@ -159,10 +159,86 @@ theorem mem_of_index {m : Bqm} {v : Label} {k : Nat} (h : m.indexOf? v = some k)
 theorem not_mem_of_index {m : Bqm} {v : Label} (h : m.indexOf? v = none) : v ∉ m.labels :=
   (indexOf?_none_iff m v).mp h
 
-/-- **Every operation through a view of the other vartype** (`tv ≠ m.vt`): the view shows afterwards exactly
-    `LPoly.stepV` of what it showed before, the call raises exactly when that step is undefined, and the invariant is
-    kept.  Only side condition: the argument of `update` is a well-formed model. -/
-theorem view_step_other {m : Bqm} (i : Inv m) (tv : VT) (htv : tv ≠ m.vt) (op : Op) (ha : Direct op) :
+/-! ### the data's vartype is kept by the composite methods (needed for a stale view: `tv = m.vt`) -/
+
+theorem vt_removeVariable (m : Bqm) (v : Option Label) : (m.removeVariable v).1.vt = m.vt := by
+  unfold Bqm.removeVariable
+  cases v with
+  | none => simp only []; split <;> rfl
+  | some v => simp only []; split <;> rfl
+
+theorem vt_vSetLinear (m : Bqm) (tv : VT) (v : Label) (b : Rat) : (m.vSetLinear tv v b).vt = m.vt := by
+  unfold Bqm.vSetLinear
+  split
+  · exact vt_setLinear m v b
+  · simp only []
+    split
+    · rw [vt_vAddLinear]
+    · rw [vt_vAddLinear, vt_vAddLinear]
+
+theorem vt_vRemoveVariable (m : Bqm) (tv : VT) (v : Option Label) : (m.vRemoveVariable tv v).1.vt = m.vt := by
+  unfold Bqm.vRemoveVariable
+  split
+  · exact vt_removeVariable m v
+  · simp only []
+    split
+    · rfl
+    · split
+      · rfl
+      · rw [vt_removeVariable, vt_vSetLinear, loop_vt]
+        intro acc l c; exact vt_vSetQuadratic acc tv l _ 0
+
+theorem vt_fixFold (tv : VT) (a f : Rat) (items : List (Nat × Rat)) (acc : Bqm) :
+    (items.foldl (fixStep tv a f) acc).vt = acc.vt := by
+  induction items generalizing acc with
+  | nil => rfl
+  | cons p t ih =>
+    simp only [List.foldl]
+    rw [ih]
+    unfold fixStep
+    split
+    · exact vt_vAddLinear _ _ _ _
+    · rfl
+
+theorem vt_vFixVariable (m : Bqm) (tv : VT) (v : Label) (a : Rat) : (m.vFixVariable tv v a).1.vt = m.vt := by
+  unfold Bqm.vFixVariable
+  split
+  · rfl
+  · simp only []
+    rw [vt_vRemoveVariable, vt_vSetOffset, vt_fixFold]
+
+theorem vt_vContract (m : Bqm) (tv : VT) (u v : Label) : (m.vContract tv u v).1.vt = m.vt := by
+  unfold Bqm.vContract
+  split
+  · split
+    · rfl
+    · simp only []
+      rw [vt_vRemoveVariable, loop_vt _ (fun acc l c => vt_vAddQuadratic acc tv u l _), vt_vRemoveInteraction]
+      cases tv
+      · rw [vt_vSetOffset, vt_vAddLinear]
+      · rw [vt_vAddLinear, vt_vAddLinear]
+  · rfl
+
+/-- a stale view (`tv = m.vt`) of an operation whose code is that of the call on the model itself -/
+theorem stale_via_direct {m : Bqm} (i : Inv m) (op : Op) (ha : Direct op)
+    (hsame : m.step (.view m.vt) op = m.step .direct op) (hspec : ∀ p : LPoly, p.stepV op = p.stepD op)
+    (hvt : (m.step .direct op).1.vt = m.vt) :
+    (absL (m.step (.view m.vt) op).1).viewP m.vt = (((absL m).viewP m.vt).stepV op).1 ∧
+    ((m.step (.view m.vt) op).2 = none ↔ (((absL m).viewP m.vt).stepV op).2 = true) ∧
+    Inv (m.step (.view m.vt) op).1 := by
+  have s := step_refinesD i ha
+  rw [hsame, hspec]
+  have e1 : (absL m).viewP m.vt = absL m := viewP_self (absL m)
+  have e2 : (absL (m.step .direct op).1).viewP m.vt = absL (m.step .direct op).1 := by
+    have := viewP_self (absL (m.step .direct op).1)
+    rw [absL_vt, hvt] at this; exact this
+  rw [e1, e2]; exact s
+
+/-- **Every operation through a `VartypeView` object** of either vartype — a view of the other vartype (`tv ≠ m.vt`) or a
+    stale view object whose tag equals the data's vartype: the view shows afterwards exactly `LPoly.stepV` of what it
+    showed before, the call raises exactly when that step is undefined, and the invariant is kept.  Only side condition:
+    the argument of `update` is a well-formed model. -/
+theorem view_step {m : Bqm} (i : Inv m) (tv : VT) (op : Op) (ha : Direct op) :
     (absL (m.step (.view tv) op).1).viewP tv = (((absL m).viewP tv).stepV op).1 ∧
     ((m.step (.view tv) op).2 = none ↔ (((absL m).viewP tv).stepV op).2 = true) ∧
     Inv (m.step (.view tv) op).1 := by
@@ -219,6 +295,8 @@ theorem view_step_other {m : Bqm} (i : Inv m) (tv : VT) (htv : tv ≠ m.vt) (op 
           have r := view_setQuadratic i tv u v b h
           rw [e0, e2]; exact ⟨r.1, flag_ok r.2.1 rfl, r.2.2⟩
   | removeInteraction u v =>
+    by_cases htv : tv = m.vt
+    · subst htv; exact stale_via_direct i _ ha rfl (fun _ => rfl) (vt_vRemoveInteraction m m.vt u v)
     have r := view_removeInteraction i tv u v htv
     have e0 : m.step (.view tv) (.removeInteraction u v) = m.vRemoveInteraction tv u v := rfl
     have e2 : ((absL m).viewP tv).stepV (.removeInteraction u v) =
@@ -231,6 +309,8 @@ theorem view_step_other {m : Bqm} (i : Inv m) (tv : VT) (htv : tv ≠ m.vt) (op 
     · rw [if_neg h] at r ⊢
       refine ⟨r.1, ⟨fun hn => absurd (r.2.1.mp hn) h, fun hn => by cases hn⟩, r.2.2⟩
   | removeVariable v =>
+    by_cases htv : tv = m.vt
+    · subst htv; exact stale_via_direct i _ ha rfl (fun _ => rfl) (vt_vRemoveVariable m m.vt v)
     cases v with
     | some v =>
       have e0 : m.step (.view tv) (.removeVariable (some v)) = m.vRemoveVariable tv (some v) := rfl
@@ -279,6 +359,8 @@ theorem view_step_other {m : Bqm} (i : Inv m) (tv : VT) (htv : tv ≠ m.vt) (op 
   | setOffset b => have r := view_setOffset i tv b; exact ⟨r.1, flag_ok rfl rfl, r.2⟩
   | changeVartype t => exact ⟨rfl, flag_ok rfl rfl, i⟩
   | fixVariable v a =>
+    by_cases htv : tv = m.vt
+    · subst htv; exact stale_via_direct i _ ha rfl (fun _ => rfl) (vt_vFixVariable m m.vt v a)
     have e0 : m.step (.view tv) (.fixVariable v a) = m.vFixVariable tv v a := rfl
     have e2 : ((absL m).viewP tv).stepV (.fixVariable v a) =
         if v ∈ m.labels then (((absL m).viewP tv).fixVariable v a, true) else ((absL m).viewP tv, false) := rfl
@@ -291,6 +373,8 @@ theorem view_step_other {m : Bqm} (i : Inv m) (tv : VT) (htv : tv ≠ m.vt) (op 
       have r := view_fix i tv v a hk htv
       rw [if_pos (mem_of_index hk)]; exact ⟨r.1, flag_ok r.2.1 rfl, r.2.2⟩
   | contract u v =>
+    by_cases htv : tv = m.vt
+    · subst htv; exact stale_via_direct i _ ha rfl (fun _ => rfl) (vt_vContract m m.vt u v)
     have e0 : m.step (.view tv) (.contract u v) = m.vContract tv u v := rfl
     have e2 : ((absL m).viewP tv).stepV (.contract u v) =
         if u ∈ m.labels ∧ v ∈ m.labels ∧ u ≠ v then (((absL m).viewP tv).contract u v, true)
@@ -343,5 +427,39 @@ theorem view_step_other {m : Bqm} (i : Inv m) (tv : VT) (htv : tv ≠ m.vt) (op 
   | addQuadraticFrom l => exact view_addQuadraticFrom tv l i
   | addLinearFromArray xs => exact ⟨rfl, flag_err .type rfl rfl, i⟩
   | addQuadraticFromDense k d => exact ⟨rfl, flag_err .type rfl rfl, i⟩
+
+/-! ### histories mixing calls on the model and through views -/
+
+/-- what one call of a history does, in terms of polynomials: a call on the model itself is the algebraic step
+    `LPoly.stepD` on the polynomial the model holds; a call through a view object of vartype `tv` is the step `LPoly.stepV`
+    on the polynomial that view shows (before and after); in both cases the call raises exactly when the step is undefined -/
+def StepRefines (m : Bqm) : Via → Op → Prop
+  | .direct, op =>
+    absL (m.step .direct op).1 = ((absL m).stepD op).1 ∧
+    ((m.step .direct op).2 = none ↔ ((absL m).stepD op).2 = true)
+  | .view tv, op =>
+    (absL (m.step (.view tv) op).1).viewP tv = (((absL m).viewP tv).stepV op).1 ∧
+    ((m.step (.view tv) op).2 = none ↔ (((absL m).viewP tv).stepV op).2 = true)
+
+/-- every call of the history, from the state the earlier calls left behind -/
+def HistoryRefines : Bqm → List (Via × Op) → Prop
+  | _, [] => True
+  | m, (via, op) :: t => StepRefines m via op ∧ HistoryRefines (m.step via op).1 t
+
+theorem step_refines_any {m : Bqm} (i : Inv m) (via : Via) (op : Op) (ha : Direct op) :
+    StepRefines m via op ∧ Inv (m.step via op).1 := by
+  cases via with
+  | direct => have s := step_refinesD i ha; exact ⟨⟨s.1, s.2.1⟩, s.2.2⟩
+  | view tv => have s := view_step i tv op ha; exact ⟨⟨s.1, s.2.1⟩, s.2.2⟩
+
+theorem mixed_history_refines {m : Bqm} (i : Inv m) (ops : List (Via × Op)) (ha : ∀ x ∈ ops, Direct x.2) :
+    HistoryRefines m ops ∧ Inv (m.run ops) := by
+  induction ops generalizing m with
+  | nil => exact ⟨trivial, i⟩
+  | cons x t ih =>
+    obtain ⟨via, op⟩ := x
+    have s := step_refines_any i via op (ha (via, op) (by simp))
+    have r := ih s.2 (fun y hy => ha y (List.mem_cons_of_mem _ hy))
+    exact ⟨⟨s.1, r.1⟩, r.2⟩
 
 end Bqm
